@@ -42,6 +42,8 @@ type Labels struct {
 	R bool `json:"r,omitempty"`
 	U int  `json:"u,omitempty"` // label inside the snapshot namespace: 0 absent, 1 = empty value, n >= 2 = value "n"
 	E int  `json:"e,omitempty"` // label outside the snapshot namespace, same encoding
+	// W is not a label: the snapshots.WithParent option passed next to WithLabels (0 = not passed, n+1 = name n).
+	W int `json:"w,omitempty"`
 }
 
 var NoLabels = Labels{T: -1}
@@ -99,6 +101,7 @@ func (l Labels) Map() map[string]string {
 
 // Stored is what the metadata store keeps of a label map: empty-valued labels are dropped (boltutil.WriteLabels).
 func (l Labels) Stored() Labels {
+	l.W = 0
 	if l.T == BadEmpty {
 		l.T = -1
 	}
@@ -112,11 +115,14 @@ func (l Labels) Stored() Labels {
 }
 
 func (l Labels) Opts() []snapshots.Opt {
-	m := l.Map()
-	if len(m) == 0 {
-		return nil
+	var opts []snapshots.Opt
+	if m := l.Map(); len(m) > 0 {
+		opts = append(opts, snapshots.WithLabels(m))
 	}
-	return []snapshots.Opt{snapshots.WithLabels(m)}
+	if l.W > 0 {
+		opts = append(opts, snapshots.WithParent(Name(l.W-1)))
+	}
+	return opts
 }
 
 // AbsLabels abstracts an observed label map; ok=false when it holds anything the model has no place for.
@@ -159,7 +165,7 @@ func (l Labels) Coq() string {
 	if l.T >= 0 {
 		t = fmt.Sprintf("(Some %d)", l.T)
 	}
-	return fmt.Sprintf("(mkL %s %s %d %d)", t, hx.CoqBool(l.R), l.U, l.E)
+	return fmt.Sprintf("(mkL %s %s %d %d %s)", t, hx.CoqBool(l.R), l.U, l.E, coqOptName(l.W-1))
 }
 
 // Op is one API call with its fault script.
